@@ -59,6 +59,15 @@ def run(ctx):
         ok = ok or (desc and before)
     c.ob("R1", ok, md, "partials-longest-first", "partial descriptors are sorted by prefix length, longest first, before being appended" if ok else
          "partial descriptors are not sorted longest-prefix-first before they are appended: 'a.*' could shadow 'a.b.*'", md.node)
+    # only keys of the form 'p.*' are partial descriptors (an exact key must never be read as the prefix 'p' + two characters)
+    from sa.util import canon_atom
+    pstores = [x for x in own_nodes(md.node) if isinstance(x, ast.Call) and isinstance(x.func, ast.Attribute) and x.func.attr == "append" and dotted(x.func.value) == "partials"]
+    for x in pstores:
+        at = [canon_atom(a, pol) for a, pol in guards_at(md, x) if not isinstance(a, ast.BoolOp)]
+        okp = any(t[0] == "truthy" and t[1].endswith(".endswith('.*')") and t[3] is True for t in at)
+        c.ob("R1", okp, md, "partial-keys-end-with-dot-star", "a key is treated as a partial descriptor only if it ends with '.*'" if okp else
+             f"'{norm(x)}' is not under a positive 'key.endswith(\".*\")' test (guards: {at}): an exact key 'foo' is read as the partial descriptor 'f.*' and "
+             f"handles the events 'f' and 'f.<anything>'", x)
     # the partial predicate: 'p.*' matches p itself and anything starting with 'p.'
     preds = [x for x in own_nodes(md.node) if isinstance(x, ast.BoolOp) and isinstance(x.op, ast.Or) and "startswith" in norm(x) and "==" in norm(x)]
     ok = any("prefix + '.'" in norm(x) for x in preds)
